@@ -413,6 +413,11 @@ func NewManager(
 	if height, err := m.store.GetMetadata(ctx, storepkg.DAIncludedHeightKey); err == nil && len(height) == 8 {
 		m.daIncludedHeight.Store(binary.LittleEndian.Uint64(height))
 	}
+	// Heights below the initial height do not exist and need no inclusion: without this the includer
+	// would wait for block 1 forever on a chain whose initial height is above 1.
+	if genesis.InitialHeight > 1 && m.daIncludedHeight.Load() < genesis.InitialHeight-1 {
+		m.daIncludedHeight.Store(genesis.InitialHeight - 1)
+	}
 
 	// Set the default publishBlock implementation
 	m.publishBlock = m.publishBlockInternal
